@@ -172,3 +172,6 @@ REG["C10"]["technique"] += (" + Descriptors.tla (one handle per file whatever th
                             "boxes in one file under a lowered RLIMIT_NOFILE")
 REG["C13"]["technique"] += (" + FsIO!RequestRefused judged in FsTrace.tla: runs given an unknown field or an unreadable input (by kind of damage x tool) must not "
                             "return normally; default outputs written twice")
+for _p in ("C08", "C10"):
+    REG[_p]["technique"] += (" + trace validation at scale: covering grids recorded from the real tool on random nested meshes (up to 4 levels, 64 x 64 pixels), "
+                             "every pixel decoded to the (level, cell) it names, judged line by line by spec/trace/CoverTrace.tla with Mesh!CoverSpec / CoverLevel")
